@@ -20,7 +20,8 @@ REQUIRED_COUNTERS = {"summaries": {"quick": 20000, "thorough": 400000},
                      "frame_reachability_scans": {"quick": 2000, "thorough": 20000},
                      "real_stack_summaries": {"quick": 200, "thorough": 2000},
                      "exiting_frames_omitted": {"quick": 500, "thorough": 10000},
-                     "error_sections_rendered_independently": {"quick": 2000, "thorough": 40000}}
+                     "error_sections_rendered_independently": {"quick": 2000, "thorough": 40000},
+                     "frameless_toplevel_stacks_with_leaf": {"quick": 50, "thorough": 1000}}
 SHARD_TIMEOUT = {"quick": 400, "thorough": 5400}
 INTERPS = ["3.12", "3.11", "3.10", "3.9"]
 
@@ -170,6 +171,10 @@ def worker(spec):
             res.count("budget_cut")
             break
         st = T.stack(0)
+        if not st.frames:
+            res.count("frameless_toplevel_stacks")
+            if st.leaf is not None:
+                res.count("frameless_toplevel_stacks_with_leaf")
         check(st, ("tree", spec["seed"], case), scan=(case % 5 == 0))
     # real stacks
     @types.coroutine
